@@ -243,7 +243,8 @@ def run_check(prop, tier, repo, seed, jobs, t0):
     V = get_verifier(repo)
     timeout_ms = 15000 if tier == 'quick' else 60000
     keys = [k for k, c in V.reg.contracts.items() if prop in c.props and not c.abstract]
-    lemma_keys = [('lemma', n) for n in lemma_closure(V, [V.reg.contracts[k] for k in keys]) if n not in V.reg.axioms]
+    lemma_keys = [('lemma', n) for n in lemma_closure(V, [V.reg.contracts[k] for k in keys], cfg.get('lemmas', []))
+                  if n not in V.reg.axioms]
     jobs_list = [(repo, k, timeout_ms, prop in propcfg.TERMINATION_PROPS, seed) for k in keys + lemma_keys]
     if not keys and cfg.get('needs_contracts', True):
         print('no contracts carry property %s' % prop)
@@ -275,12 +276,12 @@ def run_check(prop, tier, repo, seed, jobs, t0):
     return report(prop, tier, repo, seed, t0, V, results, native, extra, cfg)
 
 
-def lemma_closure(V, contracts):
+def lemma_closure(V, contracts, extra=()):
     """lemmas used (transitively) by the given contracts: each is verified in the same check"""
     import ast
     names = set(V.reg.lemmas)
     used = set()
-    work = []
+    work = [n for n in extra if n in names]
     for c in contracts:
         for n in ast.walk(c.node):
             if isinstance(n, ast.Name) and n.id in names:
